@@ -1,0 +1,104 @@
+//go:build verif
+
+// Contracts checked by /verif/govc (comment-only file; see /verif/DESIGN.md, properties C28 and C29).
+//
+// Termination measure of Match: (len(src), rank(this)) lexicographic. rank and nonNull are abstract attributes of a
+// compiled grammar: rank orders matchers that can call each other on the SAME input (a structural rank always
+// exists for the combinator trees; only Var.Elem can close a cycle), nonNull(m) says every successful match of m
+// consumes at least one token. The requires clauses about them are the well-formedness of the compiled grammar.
+package matcher
+
+//@ ufunc rank(m Matcher) int
+//@ ufunc nonNull(m Matcher) bool
+//@ ufunc wfM(m Matcher) bool
+//@ axiom rankNonNeg := forall m Matcher :: rank(m) >= 0
+//@ pred okErr(e error) := !(istype(e, *Error) && e.(*Error) == nil)
+//@
+//@ pred wfToks(src []*types.Token) := forall i in 0..len(src) :: src[i] != nil && (src[i].Tok == token.STRING ==> len(src[i].Lit) >= 1)
+//@
+//@ ginv errsNotDyn := errNoWhitespace != nil && errAdjoinEmpty != nil && errMultiMismatch != nil &&
+//@        !istype(errNoWhitespace, *Error) && !istype(errAdjoinEmpty, *Error) && !istype(errMultiMismatch, *Error)
+//@
+//@ interface Matcher.Match
+//@   requires ctx != nil && this != nil && wfM(this) && wfToks(src) && wfToks(ctx.toks)
+//@   assigns ctx.Left, ctx.LastErr
+//@   ensures [count] 0 <= n && n <= len(src)
+//@   ensures [okerr] okErr(err)
+//@   ensures [progress] nonNull(this) && (err == nil || isDyn(err)) ==> n >= 1
+//@   decreases len(src), rank(this)
+//@
+//@ func isDyn
+//@   pure
+//@   requires okErr(err)
+//@   ensures result == (istype(err, *Error) && err.(*Error) != nil && err.(*Error).Dyn)
+//@
+//@ func (*Context).SetLastError
+//@   requires p != nil
+//@   assigns p.Left, p.LastErr
+//@
+//@ func (*Context).NewErrorf
+//@   requires p != nil
+//@   assigns nothing
+//@   ensures result != nil && !isDyn(result) && fresh(result)
+//@
+//@ func (*Context).NewError
+//@   requires p != nil
+//@   assigns nothing
+//@   ensures result != nil && !result.Dyn && fresh(result)
+//@
+//@ func (gTrue).Match
+//@   requires !nonNull(Matcher(p))
+//@ func (gWS).Match
+//@   requires !nonNull(Matcher(p))
+//@ func (gString).Match
+//@ func (*gToken).Match
+//@   requires p != nil
+//@ func (*gLiteral).Match
+//@   requires p != nil
+//@
+//@ func (*Choices).Match
+//@   requires p != nil && len(p.stops) == len(p.options) && len(p.options) >= 1
+//@   requires forall i in 0..len(p.options) :: p.options[i] != nil && wfM(p.options[i]) && rank(p.options[i]) < rank(Matcher(p)) &&
+//@                                              (nonNull(Matcher(p)) ==> nonNull(p.options[i]))
+//@ loop (*Choices).Match#1
+//@   invariant nMax >= -1 && nMax <= len(src)
+//@   invariant nonNull(Matcher(p)) && errMax != nil && isDyn(errMax) ==> nMax >= 1
+//@   invariant nMax == -1 ==> errMax == nil
+//@   invariant okErr(errMax)
+//@   invariant rangeindex >= 0 ==> nMax >= 0
+//@   invariant !multiErr ==> errMax != nil
+//@
+//@ func (*gSequence).Match
+//@   requires p != nil
+//@   requires forall i in 0..len(p.items) :: p.items[i] != nil && wfM(p.items[i]) &&
+//@             (rank(p.items[i]) < rank(Matcher(p)) || (exists j in 0..i :: nonNull(p.items[j])))
+//@   requires nonNull(Matcher(p)) ==> exists j in 0..len(p.items) :: nonNull(p.items[j])
+//@ loop (*gSequence).Match#1
+//@   invariant 0 <= n && n <= len(src) && len(rets) == len(p.items) && fresh(rets)
+//@   invariant (exists j in 0..rangeindex+1 :: nonNull(p.items[j])) ==> n >= 1
+//@   invariant okErr(err) && (err == nil || isDyn(err))
+//@
+//@ func (*gRepeat0).Match
+//@   requires p != nil && p.r != nil && wfM(p.r) && rank(p.r) < rank(Matcher(p)) && !nonNull(Matcher(p))
+//@ loop (*gRepeat0).Match#1
+//@   invariant 0 <= n && n <= len(old(src)) && src == old(src)[n:] && fresh(rets)
+//@   invariant okErr(err) && (err == nil || isDyn(err))
+//@   decreases len(src)
+//@
+//@ func (*gRepeat1).Match
+//@   requires p != nil && p.r != nil && wfM(p.r) && rank(p.r) < rank(Matcher(p)) && (nonNull(Matcher(p)) ==> nonNull(p.r))
+//@ loop (*gRepeat1).Match#1
+//@   invariant 0 <= n && n <= len(src) && fresh(rets)
+//@   invariant nonNull(Matcher(p)) ==> n >= 1
+//@   invariant okErr(err) && (err == nil || isDyn(err))
+//@   decreases len(src) - n
+//@
+//@ func (*gRepeat01).Match
+//@   requires p != nil && p.r != nil && wfM(p.r) && rank(p.r) < rank(Matcher(p)) && !nonNull(Matcher(p))
+//@
+//@ func (*gAdjoin).Match
+//@   requires p != nil && p.a != nil && p.b != nil && wfM(p.a) && wfM(p.b) && rank(p.a) < rank(Matcher(p)) && (nonNull(Matcher(p)) ==> nonNull(p.a))
+//@
+//@ func (*Var).Match
+//@   option pure_funcs yes
+//@   requires p != nil && (p.Elem != nil ==> wfM(p.Elem) && (nonNull(Matcher(p)) ==> nonNull(p.Elem)))
